@@ -3,6 +3,7 @@
 set -e
 cd "$(dirname "$0")"
 export CARGO_NET_OFFLINE=true
+./mkproject.sh
 [ -f translate/tables.py ] && python3 translate/tables.py /repo coq/Gen || true
 ( cd coq && coq_makefile -f _CoqProject -o Makefile >/dev/null && timeout 7200 make -j16 2>&1 | tail -n 30 )
 sh ocaml/build.sh
